@@ -6,6 +6,9 @@ shape is a lambda applied once to the builtin and once to its overload.
 import io
 from typing import List
 
+from crosshair.core import deep_realize
+from crosshair.tracers import NoTracing
+
 from malt.operators import py_builtins
 from vf.rt import same_value
 
@@ -15,6 +18,19 @@ def _outcome(thunk, fn):
     return ('ret', thunk(fn))
   except Exception as e:  # pylint:disable=broad-except
     return ('exc', type(e).__name__)
+
+
+# Strings handed to C-level parsers (int, float, print separators) cannot be exhausted as
+# arbitrary unicode: they are drawn from a fixed alphabet through small symbolic indices, so
+# that the solver enumerates every string of the stated length over that alphabet.
+ALPHA = ['0', '1', '7', '-', '+', ' ', '.', 'e', 'x', 'a', '_', '\u0663', 'n', 'i', 'f', '\n']
+
+
+def _str2(ln, i0, i1):
+  return ''.join([ALPHA[i0], ALPHA[i1]][:ln])
+
+
+FLOATS = [0.0, -0.0, 1.5, -1.5, 2.0 ** 53 + 2.0, 1e308, float('inf'), float('-inf'), float('nan'), 0.1, -7.999]
 
 
 def _same(thunk, b):
@@ -119,12 +135,18 @@ def float_bool(b: bool) -> bool:
   return _same(lambda B: B(b), float)
 
 
-def float_str(s: str) -> bool:
+def float_str(l0: bool, l1: bool, a0: bool, a1: bool, a2: bool, a3: bool, c0: bool, c1: bool, c2: bool,
+              c3: bool) -> bool:
   """
-  pre: len(s) <= 2
   post: _
   """
-  return _same(lambda B: B(s), float)
+  v = deep_realize((l0, l1, a0, a1, a2, a3, c0, c1, c2, c3))
+  with NoTracing():
+    ln = _n(v[0:2])
+    if ln > 2:
+      return True
+    s = _str2(ln, _n(v[2:6]), _n(v[6:10]))
+    return _same(lambda B: B(s), float)
 
 
 def float_list(xs: List[int]) -> bool:
@@ -146,8 +168,12 @@ def int_int(x: int) -> bool:
   return _same(lambda B: B(x), int)
 
 
-def int_float(y: float) -> bool:
-  """ post: _ """
+def int_float(j: int) -> bool:
+  """
+  pre: 0 <= j <= 10
+  post: _
+  """
+  y = FLOATS[j]
   return _same(lambda B: B(y), int)
 
 
@@ -156,28 +182,53 @@ def int_bool(b: bool) -> bool:
   return _same(lambda B: B(b), int)
 
 
-def int_str(s: str) -> bool:
+def int_str(l0: bool, l1: bool, a0: bool, a1: bool, a2: bool, a3: bool, c0: bool, c1: bool, c2: bool,
+            c3: bool) -> bool:
   """
-  pre: len(s) <= 2
   post: _
   """
-  return _same(lambda B: B(s), int)
+  v = deep_realize((l0, l1, a0, a1, a2, a3, c0, c1, c2, c3))
+  with NoTracing():
+    ln = _n(v[0:2])
+    if ln > 2:
+      return True
+    s = _str2(ln, _n(v[2:6]), _n(v[6:10]))
+    return _same(lambda B: B(s), int)
 
 
-def int_str_base_pos(s: str, k: int) -> bool:
+BASES = [-1, 0, 1, 2, 10, 16, 36, 37]
+
+
+def _n(bits):
+  return sum(int(b) << k for k, b in enumerate(bits))
+
+
+def int_str_base_pos(l0: bool, l1: bool, a0: bool, a1: bool, a2: bool, c0: bool, c1: bool, c2: bool,
+                     k0: bool, k1: bool, k2: bool) -> bool:
   """
-  pre: len(s) <= 2 and -1 <= k <= 37
   post: _
   """
-  return _same(lambda B: B(s, k), int)
+  v = deep_realize((l0, l1, a0, a1, a2, c0, c1, c2, k0, k1, k2))
+  with NoTracing():
+    ln = _n(v[0:2])
+    if ln > 2:
+      return True
+    s = _str2(ln, _n(v[2:5]), _n(v[5:8]))
+    return _same(lambda B: B(s, BASES[_n(v[8:11])]), int)
 
 
-def int_str_base_kw(s: str, k: int) -> bool:
+def int_str_base_kw(l0: bool, l1: bool, a0: bool, a1: bool, a2: bool, c0: bool, c1: bool, c2: bool,
+                    k0: bool, k1: bool, k2: bool) -> bool:
   """
-  pre: len(s) <= 2 and -1 <= k <= 37
   post: _
   """
-  return _same(lambda B: B(s, base=k), int)
+  v = deep_realize((l0, l1, a0, a1, a2, c0, c1, c2, k0, k1, k2))
+  with NoTracing():
+    ln = _n(v[0:2])
+    if ln > 2:
+      return True
+    s = _str2(ln, _n(v[2:5]), _n(v[5:8]))
+    return _same(lambda B: B(s, base=BASES[_n(v[8:11])]), int)
 
 
 def int_int_base(x: int, k: int) -> bool:
@@ -251,7 +302,7 @@ def enumerate_1(xs: List[int]) -> bool:
 
 def enumerate_start_pos(xs: List[int], k: int) -> bool:
   """
-  pre: len(xs) <= 3
+  pre: len(xs) <= 3 and -3 <= k <= 3
   post: _
   """
   return _same_lazy(lambda B, c: B(c, k), enumerate, xs)
@@ -259,7 +310,7 @@ def enumerate_start_pos(xs: List[int], k: int) -> bool:
 
 def enumerate_start_kw(xs: List[int], k: int) -> bool:
   """
-  pre: len(xs) <= 3
+  pre: len(xs) <= 3 and -3 <= k <= 3
   post: _
   """
   return _same_lazy(lambda B, c: B(c, start=k), enumerate, xs)
@@ -275,7 +326,7 @@ def enumerate_iterable_kw(xs: List[int]) -> bool:
 
 def enumerate_both_kw(xs: List[int], k: int) -> bool:
   """
-  pre: len(xs) <= 3
+  pre: len(xs) <= 3 and -3 <= k <= 3
   post: _
   """
   return _same_lazy(lambda B, c: B(start=k, iterable=c), enumerate, xs)
@@ -478,41 +529,63 @@ def sorted_stable_reverse(xs: List[int], b: bool) -> bool:
           _same(lambda B: B(pairs, key=lambda p: p[0], reverse=1), sorted))
 
 
-def sorted_reverse_badtype(xs: List[int], s: str) -> bool:
+def sorted_reverse_badtype(xs: List[int], ln: int, i0: int) -> bool:
   """
-  pre: len(xs) <= 2 and len(s) <= 1
+  pre: len(xs) <= 2 and 0 <= ln <= 1 and 0 <= i0 <= 15
   post: _
   """
+  s = _str2(ln, i0, 0)
   return (_same(lambda B: B(xs, reverse=s), sorted) and _same(lambda B: B(xs, reverse=None), sorted) and
           _same(lambda B: B(xs, key=abs, reverse=s), sorted))
 
 
 # -- print --------------------------------------------------------------------
-def print_values(x: int, s: str, b: bool) -> bool:
+def print_values(x0: bool, x1: bool, l0: bool, l1: bool, a0: bool, a1: bool, a2: bool,
+                 c0: bool, c1: bool, c2: bool, b: bool) -> bool:
   """
-  pre: len(s) <= 2
   post: _
   """
-  return _same_print(lambda B, f: B(x, s, b, file=f))
+  v = deep_realize((x0, x1, l0, l1, a0, a1, a2, c0, c1, c2, b))
+  with NoTracing():
+    ln = _n(v[2:4])
+    if ln > 2:
+      return True
+    x = _n(v[0:2]) - 1
+    s = _str2(ln, _n(v[4:7]), _n(v[7:10]))
+    return _same_print(lambda B, f: B(x, s, v[10], file=f))
 
 
-def print_sep_end(x: int, s: str, e: str) -> bool:
+def print_sep_end(x0: bool, l0: bool, l1: bool, a0: bool, a1: bool, a2: bool, c0: bool, c1: bool,
+                  e0: bool, j0: bool, j1: bool) -> bool:
   """
-  pre: len(s) <= 2 and len(e) <= 2
   post: _
   """
-  return _same_print(lambda B, f: B(x, x, sep=s, end=e, file=f))
+  v = deep_realize((x0, l0, l1, a0, a1, a2, c0, c1, e0, j0, j1))
+  with NoTracing():
+    ln = _n(v[1:3])
+    if ln > 2:
+      return True
+    x = int(v[0]) - 1
+    s = _str2(ln, _n(v[3:6]), _n(v[6:8]) + 3)
+    e = _str2(int(v[8]), _n(v[9:11]) + 4, 0)
+    return _same_print(lambda B, f: B(x, x, sep=s, end=e, file=f))
 
 
 def print_flush_none(x: int, b: bool) -> bool:
-  """ post: _ """
+  """
+  pre: -11 <= x <= 11
+  post: _
+  """
   return (_same_print(lambda B, f: B(x, file=f, flush=b)) and
           _same_print(lambda B, f: B(file=f)) and
           _same_print(lambda B, f: B(x, sep=None, end=None, file=f)))
 
 
 def print_bad_sep(x: int) -> bool:
-  """ post: _ """
+  """
+  pre: -11 <= x <= 11
+  post: _
+  """
   return _same_print(lambda B, f: B(x, x, sep=x, file=f))
 
 
